@@ -245,9 +245,9 @@ theorem donePeer_pres (cfg : Cfg H) {st : State H} {p : Nat} (h : AllDisc st.pee
       · exact updateSyncPeer_pres cfg (st := { st with peers := _ }) h' pick
       · exact ⟨h', NoGhTo.nil p⟩
 
-theorem handleHeaders_pres (cfg : Cfg H) {st : State H} {p : Nat} (h : AllDisc st.peers p) (p' : Nat) (hs : List (Src H)) :
-    AllDisc (handleHeaders cfg st p' hs).1.peers p ∧ NoGhTo (handleHeaders cfg st p' hs).2 p := by
-  unfold handleHeaders
+theorem handleHeadersCore_pres (cfg : Cfg H) {st : State H} {p : Nat} (h : AllDisc st.peers p) (p' : Nat) (hs : List (Src H)) :
+    AllDisc (handleHeadersCore cfg st p' hs).1.peers p ∧ NoGhTo (handleHeadersCore cfg st p' hs).2 p := by
+  unfold handleHeadersCore
   split
   · exact ⟨h, NoGhTo.nil p⟩
   · split
@@ -272,6 +272,88 @@ theorem handleHeaders_pres (cfg : Cfg H) {st : State H} {p : Nat} (h : AllDisc s
               · split
                 · (refine pushTo_pres _ ?_ p' _ _; exact h)
                 · (refine pushTo_pres _ ?_ p' _ _; exact h)
+
+
+/-! ### the inHandler's part of a headers message (F4b switch) -/
+
+theorem headersSeen_id (q : PeerSt H) : (headersSeen q).id = q.id := by unfold headersSeen; split <;> rfl
+theorem headersSeen_inMap (q : PeerSt H) : (headersSeen q).inMap = q.inMap := by unfold headersSeen; split <;> rfl
+theorem headersSeen_disc (q : PeerSt H) : (headersSeen q).disc = q.disc := by unfold headersSeen; split <;> rfl
+
+/-- the filter afterwards holds what it held, or nothing -/
+theorem headersSeen_prevBegin (q : PeerSt H) : (headersSeen q).prevBegin = q.prevBegin ∨ (headersSeen q).prevBegin = none := by
+  unfold headersSeen; split
+  · exact Or.inr rfl
+  · exact Or.inl rfl
+
+theorem headersSeen_asked (q : PeerSt H) (b : Option H) (s : Option H) :
+    ({ headersSeen q with prevBegin := b, prevStop := s } : PeerSt H) = { q with prevBegin := b, prevStop := s } := by
+  unfold headersSeen; split <;> rfl
+
+theorem AllDisc.onHeadersReceived {ps : List (PeerSt H)} {p : Nat} (h : AllDisc ps p) (p' : Nat) :
+    AllDisc (onHeadersReceived ps p') p := by
+  intro r hr hid
+  unfold Sync.onHeadersReceived at hr
+  obtain ⟨a, ha, e⟩ := List.mem_map.1 hr
+  by_cases c : (a.id == p') = true
+  · rw [if_pos c] at e
+    rw [← e, headersSeen_disc]
+    rw [← e, headersSeen_id] at hid
+    exact h a ha hid
+  · rw [if_neg c] at e; rw [← e] at hid ⊢; exact h a ha hid
+
+theorem lookup_onHeadersReceived {ps : List (PeerSt H)} {p : Nat} {q : PeerSt H} (h : lookup ps p = some q) :
+    lookup (onHeadersReceived ps p) p = some (headersSeen q) := by
+  unfold lookup at h ⊢
+  unfold onHeadersReceived
+  induction ps with
+  | nil => simp at h
+  | cons a rest ih =>
+    rw [List.map_cons, List.find?_cons]
+    rw [List.find?_cons] at h
+    cases hc : (a.id == p) with
+    | true =>
+      rw [hc] at h
+      simp only [Option.some.injEq] at h
+      subst h
+      have : ((headersSeen a).id == p) = true := by rw [headersSeen_id]; exact hc
+      simp only [if_true, this]
+    | false =>
+      rw [hc] at h
+      simp only [] at h
+      simp only [Bool.false_eq_true, if_false, hc]
+      exact ih h
+
+theorem lookup_onHeadersReceived_none {ps : List (PeerSt H)} {p : Nat} (h : lookup ps p = none) :
+    lookup (onHeadersReceived ps p) p = none := by
+  unfold lookup at h ⊢
+  unfold onHeadersReceived
+  rw [List.find?_eq_none] at h ⊢
+  intro r hr
+  obtain ⟨a, ha, e⟩ := List.mem_map.1 hr
+  have hne := h a ha
+  by_cases c : (a.id == p) = true
+  · exact absurd c hne
+  · rw [if_neg c] at e; rw [← e]; exact hne
+
+/-- replacing the entries of id p afterwards makes the inHandler's change invisible -/
+theorem update_onHeadersReceived (ps : List (PeerSt H)) (p : Nat) (q' : PeerSt H) (hid : q'.id = p) :
+    update (onHeadersReceived ps p) q' = update ps q' := by
+  unfold update onHeadersReceived
+  rw [List.map_map]
+  apply List.map_congr_left
+  intro a _
+  simp only [Function.comp]
+  by_cases c : (a.id == p) = true
+  · have h1 : ((headersSeen a).id == q'.id) = true := by rw [headersSeen_id, hid]; exact c
+    have h2 : (a.id == q'.id) = true := by rw [hid]; exact c
+    simp only [c, if_true, h1, h2]
+  · simp only [c, Bool.false_eq_true, if_false]
+
+theorem handleHeaders_pres (cfg : Cfg H) {st : State H} {p : Nat} (h : AllDisc st.peers p) (p' : Nat) (hs : List (Src H)) :
+    AllDisc (handleHeaders cfg st p' hs).1.peers p ∧ NoGhTo (handleHeaders cfg st p' hs).2 p := by
+  unfold handleHeaders
+  exact handleHeadersCore_pres cfg (st := { st with peers := onHeadersReceived st.peers p' }) (h.onHeadersReceived p') p' hs
 
 theorem handleInv_pres (cfg : Cfg H) {st : State H} {p : Nat} (h : AllDisc st.peers p) (p' : Nat) (invs : List (Bool × H)) :
     AllDisc (handleInv cfg st p' invs).1.peers p ∧ NoGhTo (handleInv cfg st p' invs).2 p := by
